@@ -11,7 +11,7 @@
    `_prefix` = evaluation order of the unrepaired code  (x_diff +- .5) / (y_diff +- .5) * t ;
    the main models follow the repaired order  (x_diff +- .5) * t / (y_diff +- .5)  (finding F6).
    This file is not extracted.  No proofs here (see Proofs/MaskFloat_proofs.v). *)
-From Coq Require Import ZArith List Bool Floats Uint63 SpecFloat.
+From Coq Require Import ZArith List Bool PrimFloat Uint63 SpecFloat.
 From Abm Require Import Base.Sx Grid.Mask.
 Import ListNotations.
 Open Scope Z_scope.
